@@ -65,6 +65,22 @@ def check_C03(chk):
         chk.floor(r, n)
 
 
+def _equal_dimensions_dominate(f, nb):
+    """block nb is reached only over the `equal` edge of a comparison `a.dimensions() == / != b.dimensions()` of two different counts"""
+    ok = False
+    for sb, st in f.switches():
+        s_ = an.switch_subject(f, sb)
+        if s_["kind"] == "value" and s_["root"] is not None:
+            d_ = f.single_def(s_["root"])
+            if d_ and d_[0] == "assign" and d_[3]["k"] == "binop" and d_[3]["op"] in ("Eq", "Ne"):
+                ds_ = [f.single_def(an.origin_local(f, op_local(d_[3][x]))) for x in ("l", "r") if op_local(d_[3][x]) is not None]
+                if len(ds_) == 2 and all(x and x[0] == "call" and callee_is(x[2]["callee"], COUNT + "::dimensions") for x in ds_):
+                    roots_ = sorted(RG._param_root_owned(f, x[2]["args"][0]) or -1 for x in ds_)
+                    eq_edge = st["otherwise"] if d_[3]["op"] == "Eq" else an.edge_target(st, 0)
+                    ok = ok or (an.dominated_by_edge(f, sb, eq_edge, nb) and len(set(roots_)) == 2)
+    return ok
+
+
 def c03a(chk):
     prog = chk.prog
     f = chk.fn(PROJ + "Projection::new")
@@ -77,17 +93,7 @@ def c03a(chk):
             nb = nu[0][0]
             its_ = IT.iterations(prog, f)
             guards = IT.forall_guards(prog, f, its_, nb)
-            dim_ok = False
-            for sb, st in f.switches():
-                s_ = an.switch_subject(f, sb)
-                if s_["kind"] == "value" and s_["root"] is not None:
-                    d_ = f.single_def(s_["root"])
-                    if d_ and d_[0] == "assign" and d_[3]["k"] == "binop" and d_[3]["op"] in ("Eq", "Ne"):
-                        ds_ = [f.single_def(an.origin_local(f, op_local(d_[3][x]))) for x in ("l", "r") if op_local(d_[3][x]) is not None]
-                        if len(ds_) == 2 and all(x and x[0] == "call" and callee_is(x[2]["callee"], COUNT + "::dimensions") for x in ds_):
-                            roots_ = sorted(RG._param_root_owned(f, x[2]["args"][0]) or -1 for x in ds_)
-                            eq_edge = st["otherwise"] if d_[3]["op"] == "Eq" else an.edge_target(st, 0)
-                            dim_ok = an.dominated_by_edge(f, sb, eq_edge, nb) and len(set(roots_)) == 2
+            dim_ok = _equal_dimensions_dominate(f, nb)
             chk.ob("C03.a", "Projection::new/new_unchecked<=equal-dimensions", dim_ok, f.loc(nb), "the projection is built only when source and target have the same number of axes")
             good = []
             def into_param_(local_):
@@ -134,16 +140,7 @@ def c03a(chk):
         else:
             nb = nu[0][0]
             # dimensionality
-            dim_ok = False
-            for sb, st in f.switches():
-                s = an.switch_subject(f, sb)
-                if s["kind"] == "value" and s["root"] is not None:
-                    d = f.single_def(s["root"])
-                    if d and d[0] == "assign" and d[3]["k"] == "binop" and d[3]["op"] == "Eq":
-                        ds = [f.single_def(f.copy_root(op_local(d[3][x]))) for x in ("l", "r") if op_local(d[3][x]) is not None]
-                        if len(ds) == 2 and all(x and x[0] == "call" and callee_is(x[2]["callee"], COUNT + "::dimensions") for x in ds):
-                            roots = sorted(RG._param_root_owned(f, x[2]["args"][0]) or -1 for x in ds)
-                            dim_ok = an.dominated_by_edge(f, sb, st["otherwise"], nb) and len(set(roots)) == 2
+            dim_ok = _equal_dimensions_dominate(f, nb)
             chk.ob("C03.a", "Projection::new/new_unchecked<=equal-dimensions", dim_ok, f.loc(nb), "the projection is built only when source and target have the same number of axes")
             # element-wise size test
             fb, ft = fm[0]
